@@ -136,7 +136,7 @@ def item(child):
         st.tuples(st.just('pkgenv'), st.sampled_from(PKG_ENVS), child),
         st.tuples(st.just('builtin'), st.sampled_from(BUILTIN)),
         st.tuples(st.just('ctx'), st.sampled_from(['foot', 'head', 'ltadd', 'framebox', 'group', 'itemlab', 'hspace', 'phantom', 'alter2']), child),
-        st.tuples(st.just('hidden'), st.sampled_from(['imath', 'dmath', 'equation', 'comment', 'verb', 'ltskip', 'alter1', 'skipregion']),
+        st.tuples(st.just('hidden'), st.sampled_from(['imath', 'dmath', 'equation', 'comment', 'verb', 'ltskip', 'alter1', 'skipregion', 'comment-after-linebreak', 'comment-glued', 'verbatim']),
                   st.one_of(zz, st.sampled_from([t[1] for t in PKG_MACROS]))),
         st.tuples(st.just('define'), zz, st.sampled_from(['newcommand0', 'newcommand1', 'def', 'body'])),
         st.tuples(st.just('usebody'), child),
@@ -259,6 +259,12 @@ def rend(w, fl):
                 w.emit('\\begin{equation} %s{1} = 2 \\end{equation} ' % name)
             elif c == 'comment':
                 w.emit('%% %s{x}\n' % name)
+            elif c == 'comment-after-linebreak':
+                w.emit('x \\\\%% note %s y\n' % name)
+            elif c == 'comment-glued':
+                w.emit('x%%%s\n' % name)
+            elif c == 'verbatim':
+                w.emit('\\begin{verbatim}\n%s\n\\end{verbatim}\n' % name)
             elif c == 'verb':
                 w.emit('\\verb|%s| ' % name)
             elif c == 'ltskip':
@@ -366,7 +372,9 @@ def shell_route(doc, src, expected):
     os.makedirs(d, exist_ok=True)
     with open(os.path.join(d, 't.tex'), 'w', encoding='utf-8') as f:
         f.write(src)
-    args = ['--list-unknown', '--language', 'en', '--packages', doc[0] or '', '--documentclass', doc[1] or '', 't.tex']
+    extra = [[], ['--multi-language'], ['--simple-equations'], ['--multi-language', '--ml-continue-threshold', '1'], ['--output', 'json'],
+             ['--single-letters', 'a|I']][len(src) % 6]
+    args = ['--list-unknown', '--language', 'en', '--packages', doc[0] or '', '--documentclass', doc[1] or ''] + extra + ['t.tex']
     with watchdog(120):
         rc, out, err = sut.run_shell(args, d, plan={'mode': 'flag_words', 'words': []})
     out = out.decode('utf-8')
